@@ -3,13 +3,38 @@ import os, sys
 sys.path.insert(0, os.path.dirname(__file__))
 import ltsgen as G
 
-VARIANT = G.FIXED
+P, K, A, S, C = G.PUB, G.CLOSE, G.ATT, G.STOP, G.CONS
+
+def witness_cases(var):
+    """the schedules that broke the code before the repairs (D2, D3, D4) and the attach-during-close windows,
+    for every way a stream ends (closed, replaced, idle), RTP and FLV consumers"""
+    out = []
+    for flv in (False, True):
+        for how in (1, 2, 3):
+            base = lambda stop, sched: [var, 1, 1000, True, [], [stop], sched + G.drain(1, 3), [0], flv, how]
+            out.append(base(0, [[A, 0]] * 3 + [[K, 0]] * 3 + [[C, 0]] * 3))                 # lost wake-up window
+            out.append(base(0, [[K, 0]] * 3 + [[A, 0]] * 3 + [[C, 0]] * 3))                 # attach after close
+            out.append(base(1, [[A, 0]] * 3 + [[S, 0]] + [[K, 0]] * 3 + [[S, 0]]))          # stop racing with the sweep
+            for i in range(4):                                                              # close inside the attach
+                for j in range(3):
+                    out.append(base(0, [[A, 0]] * i + [[K, 0]] * (j + 1) + [[A, 0]] * (3 - i) + [[K, 0]] * (2 - j)))
+    return out
 
 def run(ck):
     if not ck.prepare():
         return ck.finish(rule="build failed")
     rng = ck.rng
-    n = 1500 if ck.thorough else 150
-    cases = [G.rand_case(rng, VARIANT) for _ in range(n)]
-    ck.stream("random-schedules", cases, "C03_lts", "C03_lts", "C03_ok", sig=lambda c, e, o: "lts")
-    return ck.finish(rule="random schedules")
+    ck.stream("witness-schedules", witness_cases(G.FIXED), "C03_lts", "C03_lts", "C03_ok", sig=lambda c, e, o: "lts")
+    n = 1500 if ck.thorough else 120
+    cases = []
+    for _ in range(n):
+        c = G.rand_case(rng, G.FIXED)
+        if rng.random() < 0.7:        # let every thread come to rest, so that the release clauses of the oracle apply
+            c[6] = c[6] + G.drain(c[1], 3)
+        cases.append(c)
+    ck.stream("random-schedules", cases, "C03_lts", "C03_lts", "C03_ok",
+              nontrivial=lambda c: c[1] >= 2 or len(c[6]) > 30, sig=lambda c, e, o: "lts", timeout=1500)
+    return ck.finish(rule="(1) the three pre-repair witness schedules and every placement of the close inside an attach, for each "
+                          "way a stream ends (Close, replaced, idle) and for RTP and FLV consumers; (2) random schedules of publisher / "
+                          "closer / attach / stop / delivery goroutines (1-3 consumers, scripted consumer panics), 70% followed by a fair "
+                          "drain so that the threads come to rest; all replayed through the schedule points on a real media.Stream")
